@@ -1042,7 +1042,7 @@ func (v *Version) UnmarshalBinary(data []byte) error {
 	if len(data) != 1 {
 		return errors.New("lorawan: 1 byte of data is expected")
 	}
-	v.Minor = data[0]
+	v.Minor = data[0] & 0x0f // bits 7:4 are RFU
 	return nil
 }
 
